@@ -606,21 +606,17 @@ Record report := mkRep {
   rep_events : list sevent
 }.
 
-Definition add_file (d : Z) (r : read) (fs : list (Z * list read)) : list (Z * list read) :=
-  let fix go (l : list (Z * list read)) : list (Z * list read) :=
-    match l with
-    | [] => [(d, [r])]
-    | (d', rs) :: t => if d' =? d then (d', rs ++ [r]) :: t else (d', rs) :: go t
-    end in
-  go fs.
+Fixpoint add_file (d : Z) (r : read) (fs : list (Z * list read)) : list (Z * list read) :=
+  match fs with
+  | [] => [(d, [r])]
+  | (d', rs) :: t => if d' =? d then (d', rs ++ [r]) :: t else (d', rs) :: add_file d r t
+  end.
 
-Definition bump (c : Z) (l : list (Z * Z)) : list (Z * Z) :=
-  let fix go (l : list (Z * Z)) : list (Z * Z) :=
-    match l with
-    | [] => [(c, 1)]
-    | (c', n) :: t => if c' =? c then (c', n + 1) :: t else (c', n) :: go t
-    end in
-  go l.
+Fixpoint bump (c : Z) (l : list (Z * Z)) : list (Z * Z) :=
+  match l with
+  | [] => [(c, 1)]
+  | (c', n) :: t => if c' =? c then (c', n + 1) :: t else (c', n) :: bump c t
+  end.
 
 Definition step_report (rep : report) (out : outcome) : report :=
   let r := out_read out in
@@ -643,3 +639,29 @@ Definition empty_report : report := mkRep 0 0 0 0 [] 0 0 0 0 [] [] [].
 
 Definition run (order : list kind) (forder : list fkind) (o : options) (reads : list read) : report :=
   fold_left (fun rep r => step_report rep (process_read order forder o r)) reads empty_report.
+
+(** ---- per-adapter statistics as the statistics classes keep them (adapters.py:71-290):
+    errors[removed length][errors] += 1 per applied (single) match, per adapter and end *)
+Definition skey := (Z * Z * Z * Z)%type.    (* adapter index, end (0 = 5', 1 = 3'), removed length, errors *)
+Definition skey_eqb (k k' : skey) : bool :=
+  let '(a, b, c, d) := k in let '(a', b', c', d') := k' in (a =? a') && (b =? b') && (c =? c') && (d =? d').
+Definition ev_key (e : sevent) : skey := (Z.of_nat (ev_idx e), ev_end e, ev_len e, ev_errors e).
+
+Fixpoint bump_key (k : skey) (l : list (skey * Z)) : list (skey * Z) :=
+  match l with
+  | [] => [(k, 1)]
+  | (k', n) :: t => if skey_eqb k' k then (k', n + 1) :: t else (k', n) :: bump_key k t
+  end.
+
+Definition tally (evs : list sevent) : list (skey * Z) :=
+  fold_left (fun acc e => bump_key (ev_key e) acc) evs [].
+
+(** ErrorRanges._compute_lengths, report.py: for length in 1..n: while int(length*rate) > len(lengths): append(length-1);
+    finally append(n).  [thr L] = int(L * rate). *)
+Fixpoint eranges_aux (thr : Z -> Z) (ls : list Z) (acc : list Z) : list Z :=
+  match ls with
+  | [] => acc
+  | L :: t => eranges_aux thr t (acc ++ repeat (L - 1) (Z.to_nat (thr L - zlen acc)))
+  end.
+Definition error_ranges (thr : Z -> Z) (n : Z) : list Z :=
+  eranges_aux thr (zrange 1 (Z.to_nat n)) [] ++ [n].
